@@ -233,6 +233,7 @@ type Result struct {
 	Unsent                      []ID // accepted messages not seen in any produce request when the settle period ended
 	SettledAt                   time.Time
 	AfterClose                  error // result of WriteMessages after Close
+	AfterCloseEmpty             error // ... of a WriteMessages call without messages
 	Cluster                     *fakecluster.Cluster
 	Net                         *memnet.Network
 }
@@ -558,6 +559,7 @@ func Run(c Case) *Result {
 	<-callersDone
 	if !res.CloseHung {
 		res.AfterClose = w.WriteMessages(context.Background(), Build(ID{99, 0, 0}, Msg{KeyLen: -1, ValueSize: 10, Topic: topicFor(c)}))
+		res.AfterCloseEmpty = w.WriteMessages(context.Background()) // a call without messages is a call all the same
 	}
 	tr.CloseIdleConnections()
 
